@@ -1,3 +1,50 @@
 """C18 Human-readable differences are total, localized and correctly directed."""
+from contracts.humans import LOCALES, _format_case
+from pyvc import sym
+from pyvc.sym import And, Not
+
 ID = "C18"
+
+
+class _canary_direction:
+    """falsified: claims the 'ago' marker is used when the instance is LATER than now"""
+    _c = _format_case("en")
+    args = _c.args
+
+    def result(F, **k):
+        raise NotImplementedError
+
+    def ensures(result, self, diff, is_now, absolute, locale):
+        from contracts.humans import _marker
+        from pyvc.stdlib import Formatted
+
+        tmpl = result.template if isinstance(result, Formatted) else result
+        mk = _marker(getattr(tmpl, "key", None))
+        if mk in ("ago", ".past"):
+            return [("ago_means_later", diff._invert)]
+        return []
+
+
 CONTRACTS = ["pendulum.formatting.difference_formatter.DifferenceFormatter.format"]
+CANARIES = [("ago_marker_for_the_future", "pendulum.formatting.difference_formatter.DifferenceFormatter.format", _canary_direction)]
+ASSUMPTIONS = [
+    "the diff passed to the formatter is the absolute Interval diff() builds: non-negative canonical components (C06), invert == instance later than the reference",
+    "Locale.get/Locale.load are pure look-ups: executed natively on their concrete arguments (the real code, not a model); the plural rules - lambdas in the locale data files - are executed from their source",
+    "str.format: only the placeholder structure is checked (positional fields exist); the rendered text is abstract",
+    "Duration.in_words / Interval.in_words (2^7 x plural-class paths), Locale.ordinalize and the locale tokens of format() are checked bounded: all 27 locales x units x counts",
+]
+EXPLANATION = "DifferenceFormatter.format is executed symbolically for each of the 27 shipped locales with symbolic components and flags: no exception, a non-empty template with positional placeholders, the direction marker matches (invert, is_now, absolute), the count is the documented rounding of the largest unit."
+
+
+def bounded(ctx):
+    from bounded import c18
+
+    c18.run(ctx)
+
+
+MANIFEST_ENTRY = {
+    "text": "DifferenceFormatter.format is proved, separately for each of the 27 shipped locales (real locale data, plural rules executed from their source) and for all component values and flag combinations, to return a non-empty translation template whose placeholders are positional (no KeyError/TypeError/IndexError), to carry the past/future/before/after marker exactly according to (invert, is_now) and none when absolute, and to show a count that is the largest non-zero unit's value or one more, at least 1.",
+    "note": "Trusted: pyvc, z3/cvc5. Locale look-ups run natively on concrete keys. Bounded (not proved): in_words, ordinalize, locale-dependent format tokens - exhaustive over locales x units x counts 0..1000 in the thorough tier. One genuine defect found by a refuted obligation and fixed (zh templates, 9a2dca6).",
+    "technique": "contract-based deductive verification per locale (symbolic execution of the real formatter over the real locale data, z3/cvc5); bounded exhaustive enumeration for in_words/ordinalize/tokens",
+    "design_ref": "DESIGN.md section 8 (C18)",
+}
